@@ -359,6 +359,11 @@ def compare(ex, st, op, a, b, node):
             if isinstance(x, MaybeNone):
                 t = x.isnone
                 return Sym(z3.Not(t) if neg else t, 'bool')
+            h = getattr(ex.reg, 'none_test', None)
+            if h is not None and isinstance(x, Sym):
+                t = h(ex, st, x)
+                if t is not None:
+                    return Sym(z3.Not(t) if neg else t, 'bool')
             r = x is None
             return (not r) if neg else r
         raise OutsideSubset('is comparison with non-None', node)
